@@ -63,7 +63,17 @@ type Exec struct {
 	retHandler  func(s *State, results []Val) // non-nil while inlining
 	curInstr  ssa.Instruction
 	forks     []fork
+	curStop   *ssa.BasicBlock
+	curOut    *[]arrival
+	pdoms     map[*ssa.Function]map[*ssa.BasicBlock]*ssa.BasicBlock
+	noMerge   bool
+	mergeAfter int
+	cuts       map[ssa.Instruction]*spec.CutSpec
+	cutDone    map[*spec.CutSpec]bool
+	wholeFn    *loopInfo
+	forkCount  int
 	pkgShort  string
+	isInit    bool
 	returns   int
 }
 
@@ -486,6 +496,106 @@ func staticFn(call *ssa.CallCommon) *ssa.Function {
 	return nil
 }
 
+// ---------- cuts ----------
+
+func (x *Exec) findCuts() {
+	x.cuts = map[ssa.Instruction]*spec.CutSpec{}
+	x.cutDone = map[*spec.CutSpec]bool{}
+	if x.c == nil {
+		return
+	}
+	for _, cs := range x.c.Cuts {
+		n := 0
+		found := false
+		for _, b := range x.fn.Blocks {
+			for _, in := range b.Instrs {
+				if c, ok := in.(*ssa.Call); ok && calleeName(&c.Call) == cs.Callee {
+					n++
+					if n == cs.N {
+						// the cut sits after the stores that save the call's results
+						at := ssa.Instruction(in)
+						for k := indexOf(b, in) + 1; k < len(b.Instrs); k++ {
+							switch b.Instrs[k].(type) {
+							case *ssa.Store, *ssa.Extract, *ssa.DebugRef:
+								at = b.Instrs[k]
+								continue
+							}
+							break
+						}
+						x.cuts[at] = cs
+						found = true
+					}
+				}
+			}
+		}
+		if !found {
+			x.unsupported("cut %s: call %s#%d not found (contract no longer binds)", cs.Label, cs.Callee, cs.N)
+		}
+	}
+}
+
+func indexOf(b *ssa.BasicBlock, in ssa.Instruction) int {
+	for i, x := range b.Instrs {
+		if x == in {
+			return i
+		}
+	}
+	return -1
+}
+
+// atCut is called right after the instruction a cut is attached to. It proves the cut invariants on the arriving
+// path; the first arrival continues from a generalised state (everything the function may have written is
+// havocked, then the invariants are assumed), later arrivals end there.
+func (x *Exec) atCut(s *State, cs *spec.CutSpec) bool {
+	env := x.specEnv(s, nil)
+	for i, inv := range cs.Invariants {
+		x.addObl(s, "cut", cs.Label+":"+clauseLabel(inv, i), x.evalBool(env, inv.E), x.clauseProps(inv), inv.Src)
+	}
+	if x.cutDone[cs] {
+		return false
+	}
+	x.cutDone[cs] = true
+	if x.wholeFn == nil {
+		li := &loopInfo{body: map[*ssa.BasicBlock]bool{}, cells: map[*ssa.Alloc]bool{}, heaps: map[string]bool{}, allocStores: map[string][]*ssa.Alloc{}}
+		for _, b := range x.fn.Blocks {
+			li.body[b] = true
+		}
+		x.scanLoop(li)
+		// cells assigned exactly once, in the entry block, keep their value (parameters, single-assignment locals)
+		count := map[*ssa.Alloc]int{}
+		inEntry := map[*ssa.Alloc]bool{}
+		for _, b := range x.fn.Blocks {
+			for _, in := range b.Instrs {
+				if st, ok := in.(*ssa.Store); ok {
+					if al, ok := st.Addr.(*ssa.Alloc); ok {
+						count[al]++
+						if b == x.fn.Blocks[0] {
+							inEntry[al] = true
+						}
+					}
+				}
+			}
+		}
+		for al := range li.cells {
+			if count[al] == 1 && inEntry[al] {
+				delete(li.cells, al)
+			}
+		}
+		li.ordinal = 0
+		x.wholeFn = li
+	}
+	keep := s.pc
+	_ = keep
+	s.pc = append([]*smt.Term{}, x.entryPC...)
+	x.havocLoop(s, x.wholeFn)
+	env = x.specEnv(s, nil)
+	for _, inv := range cs.Invariants {
+		s.assume(x.evalBool(env, inv.E))
+	}
+	s.phiFrom = nil
+	return true
+}
+
 // ---------- running a function ----------
 
 type FuncResult struct {
@@ -500,7 +610,7 @@ type FuncResult struct {
 
 func (e *Engine) VerifyFunc(c *Contract, maxPaths int) *FuncResult {
 	x := &Exec{E: e, fn: c.Fn, c: c, wrote: map[string]bool{}, entryHeap: map[string]*smt.Term{}, epoch: "0",
-		maxPaths: maxPaths, counters: map[string]int{}}
+		maxPaths: maxPaths, counters: map[string]int{}, isInit: c.IsInit, mergeAfter: MergeAfter}
 	res := &FuncResult{Fn: c.Fn, Name: funcDisplayName(c.Fn)}
 	func() {
 		defer func() {
@@ -513,6 +623,7 @@ func (e *Engine) VerifyFunc(c *Contract, maxPaths int) *FuncResult {
 			}
 		}()
 		x.findLoops()
+		x.findCuts()
 		x.run()
 	}()
 	res.Obligations = x.obls
@@ -524,6 +635,10 @@ func (e *Engine) VerifyFunc(c *Contract, maxPaths int) *FuncResult {
 }
 
 type outsideSubset string
+
+// MergeAfter: paths are enumerated separately for the first MergeAfter two-way splits in a function (small, easy
+// queries); beyond that, if/else diamonds are joined at their post-dominator (ite-merged state) to bound the path count.
+var MergeAfter = 48
 
 func (x *Exec) run() {
 	s := &State{heap: map[string]*smt.Term{}, cells: map[*ssa.Alloc]Val{}, env: map[ssa.Value]Val{}, origin: map[ssa.Value]*Addr{}, inLoops: map[*ssa.BasicBlock]bool{}}
@@ -550,9 +665,25 @@ func (x *Exec) run() {
 		t := x.evalBool(env, r.E)
 		s.assume(t)
 	}
-	for _, ax := range x.E.Axioms {
-		if !ax.IsLemma || true {
-			_ = ax
+	// package-level invariants (established by the package initialiser, globals never written afterwards)
+	if !x.isInit {
+		for _, gi := range x.E.GlobalInvs {
+			if gi.Pkg == nil || x.fn.Pkg == nil || gi.Pkg != x.fn.Pkg.Pkg {
+				continue // only the invariants of the function's own package are assumed
+			}
+			genv := x.specEnv(s, nil)
+			genv.Pkg = gi.Pkg
+			genv.CalleeView = true
+			s.assume(x.evalBool(genv, gi.E))
+		}
+	} else {
+		// the initialiser runs once: its guard is false on entry
+		for _, m := range x.fn.Pkg.Members {
+			if g, ok := m.(*ssa.Global); ok && g.Name() == "init$guard" {
+				name, _ := x.E.globalHeap(g)
+				x.Heap(s, name)
+				s.heap[name] = smt.False
+			}
 		}
 	}
 	x.entryPC = append([]*smt.Term{}, s.pc...)
@@ -585,6 +716,288 @@ type fork struct {
 
 func (x *Exec) execBlock(s *State, b *ssa.BasicBlock, prev *ssa.BasicBlock) {
 	x.execFrom(s, b, 0, prev)
+}
+
+type arrival struct {
+	st   *State
+	from *ssa.BasicBlock
+}
+
+// enter continues execution at block b, unless b is the join point currently being collected.
+func (x *Exec) enter(s *State, b *ssa.BasicBlock, prev *ssa.BasicBlock) {
+	if b == x.curStop && x.curOut != nil {
+		*x.curOut = append(*x.curOut, arrival{st: s, from: prev})
+		return
+	}
+	x.execFrom(s, b, 0, prev)
+}
+
+// ipdom: immediate post-dominator of b within its function (nil if none).
+func (x *Exec) ipdom(b *ssa.BasicBlock) *ssa.BasicBlock {
+	fn := b.Parent()
+	pd, ok := x.pdoms[fn]
+	if !ok {
+		pd = computeIPDom(fn)
+		if x.pdoms == nil {
+			x.pdoms = map[*ssa.Function]map[*ssa.BasicBlock]*ssa.BasicBlock{}
+		}
+		x.pdoms[fn] = pd
+	}
+	return pd[b]
+}
+
+func computeIPDom(fn *ssa.Function) map[*ssa.BasicBlock]*ssa.BasicBlock {
+	n := len(fn.Blocks)
+	// node n is the virtual exit
+	full := func() []bool {
+		a := make([]bool, n+1)
+		for i := range a {
+			a[i] = true
+		}
+		return a
+	}
+	pdom := make([][]bool, n+1)
+	for i := 0; i <= n; i++ {
+		pdom[i] = full()
+	}
+	exitSet := make([]bool, n+1)
+	exitSet[n] = true
+	pdom[n] = exitSet
+	succs := func(i int) []int {
+		b := fn.Blocks[i]
+		if len(b.Succs) == 0 {
+			return []int{n}
+		}
+		var out []int
+		for _, s := range b.Succs {
+			out = append(out, s.Index)
+		}
+		return out
+	}
+	for changed := true; changed; {
+		changed = false
+		for i := n - 1; i >= 0; i-- {
+			nw := full()
+			for _, sc := range succs(i) {
+				for k := 0; k <= n; k++ {
+					nw[k] = nw[k] && pdom[sc][k]
+				}
+			}
+			nw[i] = true
+			for k := 0; k <= n; k++ {
+				if nw[k] != pdom[i][k] {
+					changed = true
+				}
+			}
+			pdom[i] = nw
+		}
+	}
+	res := map[*ssa.BasicBlock]*ssa.BasicBlock{}
+	for i := 0; i < n; i++ {
+		// strict post-dominators of i; the immediate one is post-dominated by all the others
+		var cands []int
+		for k := 0; k < n; k++ {
+			if k != i && pdom[i][k] {
+				cands = append(cands, k)
+			}
+		}
+		for _, c := range cands {
+			imm := true
+			for _, d := range cands {
+				if d != c && !pdom[c][d] {
+					imm = false
+					break
+				}
+			}
+			if imm {
+				res[fn.Blocks[i]] = fn.Blocks[c]
+				break
+			}
+		}
+	}
+	return res
+}
+
+// mergeStates joins the states arriving at a post-dominator into one state whose cells/heap are ite's over the
+// arrival guards (the conjunction of each arrival's path-condition delta).
+func (x *Exec) mergeStates(arr []arrival, base int) (*State, bool) {
+	if len(arr) == 1 {
+		st := arr[0].st
+		st.phiFrom = []phiSrc{{guard: smt.True, from: arr[0].from}}
+		return st, true
+	}
+	guards := make([]*smt.Term, len(arr))
+	for i, a := range arr {
+		if len(a.st.pc) < base {
+			return nil, false
+		}
+		guards[i] = smt.And(a.st.pc[base:]...)
+		if len(a.st.defers) != len(arr[0].st.defers) {
+			return nil, false
+		}
+		for j := range a.st.defers {
+			if a.st.defers[j].inst != arr[0].st.defers[j].inst {
+				return nil, false
+			}
+		}
+	}
+	chain := func(vals []*smt.Term) *smt.Term {
+		same := true
+		for _, v := range vals[1:] {
+			if v != vals[0] {
+				same = false
+			}
+		}
+		if same {
+			return vals[0]
+		}
+		r := vals[len(vals)-1]
+		for i := len(vals) - 2; i >= 0; i-- {
+			r = smt.Ite(guards[i], vals[i], r)
+		}
+		return r
+	}
+	m := arr[0].st.clone()
+	m.pc = append(append([]*smt.Term{}, arr[0].st.pc[:base]...), smt.Or(guards...))
+	// heap
+	names := map[string]bool{}
+	for _, a := range arr {
+		for h := range a.st.heap {
+			names[h] = true
+		}
+	}
+	for h := range names {
+		vals := make([]*smt.Term, len(arr))
+		for i, a := range arr {
+			if t, ok := a.st.heap[h]; ok {
+				vals[i] = t
+			} else if h == "$alloc" {
+				vals[i] = x.entryAlloc()
+			} else {
+				vals[i] = x.Heap(a.st, h)
+			}
+		}
+		m.heap[h] = chain(vals)
+	}
+	// cells
+	cellSet := map[*ssa.Alloc]bool{}
+	for _, a := range arr {
+		for c := range a.st.cells {
+			cellSet[c] = true
+		}
+	}
+	for c := range cellSet {
+		var vals []*smt.Term
+		var first Val
+		all := true
+		allTerm := true
+		for _, a := range arr {
+			v, ok := a.st.cells[c]
+			if !ok {
+				all = false
+				continue
+			}
+			if first == nil {
+				first = v
+			}
+			if tv, ok := v.(TermVal); ok {
+				vals = append(vals, tv.T)
+			} else {
+				allTerm = false
+			}
+		}
+		if !all {
+			// allocated on some branches only: not live after the join (or re-initialised before use)
+			m.cells[c] = first
+			continue
+		}
+		if allTerm {
+			m.cells[c] = TermVal{chain(vals)}
+			continue
+		}
+		// non-term values (lists, addresses): must be identical
+		for _, a := range arr {
+			if !sameVal(a.st.cells[c], first) {
+				return nil, false
+			}
+		}
+		m.cells[c] = first
+	}
+	// env: union; differing term values are merged
+	envSet := map[ssa.Value]bool{}
+	for _, a := range arr {
+		for v := range a.st.env {
+			envSet[v] = true
+		}
+	}
+	for v := range envSet {
+		var vals []*smt.Term
+		var first Val
+		all, allTerm := true, true
+		for _, a := range arr {
+			val, ok := a.st.env[v]
+			if !ok {
+				all = false
+				continue
+			}
+			if first == nil {
+				first = val
+			}
+			if tv, ok := val.(TermVal); ok {
+				vals = append(vals, tv.T)
+			} else {
+				allTerm = false
+			}
+		}
+		if all && allTerm {
+			m.env[v] = TermVal{chain(vals)}
+		} else {
+			m.env[v] = first
+		}
+	}
+	for _, a := range arr {
+		for k, o := range a.st.origin {
+			if _, ok := m.origin[k]; !ok {
+				m.origin[k] = o
+			}
+		}
+	}
+	m.phiFrom = nil
+	for i, a := range arr {
+		m.phiFrom = append(m.phiFrom, phiSrc{guard: guards[i], from: a.from})
+	}
+	return m, true
+}
+
+func sameVal(a, b Val) bool {
+	switch a := a.(type) {
+	case TermVal:
+		if b, ok := b.(TermVal); ok {
+			return a.T == b.T
+		}
+	case ListVal:
+		if b, ok := b.(ListVal); ok && len(a.Elems) == len(b.Elems) {
+			for i := range a.Elems {
+				if !sameVal(a.Elems[i], b.Elems[i]) {
+					return false
+				}
+			}
+			return true
+		}
+	case BoxedVal:
+		if b, ok := b.(BoxedVal); ok {
+			return types.Identical(a.Type, b.Type) && sameVal(a.Inner, b.Inner)
+		}
+	case AddrVal:
+		if b, ok := b.(AddrVal); ok {
+			return a.A == b.A
+		}
+	case FuncVal:
+		if b, ok := b.(FuncVal); ok {
+			return a.Fn == b.Fn && len(a.Bindings) == len(b.Bindings)
+		}
+	}
+	return false
 }
 
 func (x *Exec) execFrom(s *State, b *ssa.BasicBlock, start int, prev *ssa.BasicBlock) {
@@ -636,11 +1049,42 @@ func (x *Exec) execFrom(s *State, b *ssa.BasicBlock, start int, prev *ssa.BasicB
 				} else if c.IsFalse() {
 					next = b.Succs[1]
 				} else {
+					J := x.ipdom(b)
+					if J != nil && x.loops[J] == nil && !x.noMerge && x.forkCount >= x.mergeAfter {
+						base := len(s.pc)
+						s2 := s.clone()
+						s2.assume(smt.Not(c))
+						s.assume(c)
+						saveStop, saveOut := x.curStop, x.curOut
+						var arr []arrival
+						x.curStop, x.curOut = J, &arr
+						x.enter(s, b.Succs[0], b)
+						if len(x.unsup) == 0 {
+							x.enter(s2, b.Succs[1], b)
+						}
+						x.curStop, x.curOut = saveStop, saveOut
+						if len(x.unsup) > 0 || len(arr) == 0 {
+							return
+						}
+						if m, ok := x.mergeStates(arr, base); ok {
+							x.enter(m, J, nil)
+						} else {
+							for _, a := range arr {
+								x.enter(a.st, J, a.from)
+								if len(x.unsup) > 0 {
+									return
+								}
+							}
+						}
+						return
+					}
+					s.splits++
+					x.forkCount++
 					s2 := s.clone()
 					s2.assume(smt.Not(c))
 					s.assume(c)
-					x.execBlock(s, b.Succs[0], b)
-					x.execBlock(s2, b.Succs[1], b)
+					x.enter(s, b.Succs[0], b)
+					x.enter(s2, b.Succs[1], b)
 					return
 				}
 			case *ssa.Jump:
@@ -667,6 +1111,9 @@ func (x *Exec) execFrom(s *State, b *ssa.BasicBlock, start int, prev *ssa.BasicB
 				return
 			default:
 				ok := x.step(s, in, prev)
+				if cs, isCut := x.cuts[in]; isCut && ok && len(x.unsup) == 0 {
+					ok = x.atCut(s, cs)
+				}
 				forks := x.forks
 				x.forks = nil
 				for _, f := range forks {
@@ -692,6 +1139,10 @@ func (x *Exec) execFrom(s *State, b *ssa.BasicBlock, start int, prev *ssa.BasicB
 			}
 		}
 		if next == nil {
+			return
+		}
+		if next == x.curStop && x.curOut != nil {
+			*x.curOut = append(*x.curOut, arrival{st: s, from: b})
 			return
 		}
 		prev, b, start = b, next, 0
